@@ -3,6 +3,8 @@ package eventlogstore
 import (
 	"context"
 
+	"berty.tech/go-orbit-db/iface"
+
 	"berty.tech/go-orbit-db/internal/vstub"
 	"berty.tech/go-orbit-db/internal/vstubodb"
 )
@@ -50,6 +52,7 @@ func VerifC08Writers() {
 				}
 			}
 			prev[k] = l
+			latestIsTail(rs[k], l)
 		}
 	}
 	for s := 0; s < steps; s++ {
@@ -95,5 +98,27 @@ func VerifC08Writers() {
 	vstub.Assert(len(l0) == total, "C01 every written entry is listed (W writers)")
 	for k := 1; k < w; k++ {
 		vstub.Assert(vstubodb.SameStrings(l0, listing(rs[k])), "C01 all writers list the same entries in the same order (W writers)")
+	}
+}
+
+// latestIsTail: the "latest entry" queries - no bound, amount unset, 0 or 1 - return
+// exactly the LAST element of the full listing l, also when the log has several
+// heads (the last head in the head set is not necessarily the last listed entry).
+func latestIsTail(r *vstubodb.Replica, l []string) {
+	zero, one := 0, 1
+	for _, o := range []*iface.StreamOptions{{}, {Amount: &zero}, {Amount: &one}, nil} {
+		ops, err := r.Store.(*orbitDBEventLogStore).List(context.Background(), o)
+		if err != nil {
+			vstub.Fail("C08 List (latest) failed")
+			return
+		}
+		if len(l) == 0 {
+			vstub.Assert(len(ops) == 0, "C08 the latest-entry query of an empty log returns nothing")
+			continue
+		}
+		vstub.Assert(len(ops) == 1 && ops[0].GetEntry().GetHash().String() == l[len(l)-1], "C08 an unbounded query for the latest entry (amount unset, 0 or 1) returns the last entry of the full listing, also on a log with several heads")
+	}
+	if len(r.Store.OpLog().Heads().Slice()) > 1 {
+		vstub.Cover("latest-with-several-heads")
 	}
 }
